@@ -4,3 +4,4 @@ open PgmVerif
 #print axioms PgmVerif.C09_colmajor_entry
 #print axioms PgmVerif.C09_uai_index_bijection
 #print axioms PgmVerif.C09_round4_bound
+#print axioms PgmVerif.C09_net_decimals_tie
